@@ -15,7 +15,7 @@ func newGen(prog *Program, fn *ssa.Function, fc *FuncContract, ctx *Ctx) *gen {
 	g := &gen{ctx: ctx, prog: prog, fn: fn, fc: fc, cs: prog.cs, vals: map[ssa.Value]Val{},
 		reach: map[*ssa.BasicBlock]string{}, exit: map[*ssa.BasicBlock]State{}, exitRch: map[*ssa.BasicBlock]string{},
 		written: map[*ssa.BasicBlock]map[string]bool{}, counters: map[string]int{}, loopPre: map[*ssa.BasicBlock]State{},
-		ghostEnv: map[string]Val{}, paramEnv: map[string]Val{}}
+		ghostEnv: map[string]Val{}, paramEnv: map[string]Val{}, freshRefs: map[string]bool{}, writtenOld: map[string]bool{}}
 	ctx.comp("alloctop", "Int")
 	ctx.comp(epochKey, "Int")
 	g.fnKey = funcKey(fn)
@@ -189,6 +189,15 @@ func (g *gen) loopWritten(li *loopInfo) map[string]bool {
 	return out
 }
 
+func (g *gen) loopWritesOld(li *loopInfo, c string) bool {
+	for b := range li.body {
+		if g.dryOldB[b][c] {
+			return true
+		}
+	}
+	return false
+}
+
 func (g *gen) loopInvariants(li *loopInfo) []Clause {
 	if g.fc == nil {
 		return nil
@@ -237,6 +246,11 @@ func (g *gen) loopHeader(b *ssa.BasicBlock, li *loopInfo, in State, rc string) (
 			n := g.ctx.fresh(c+"_loop", g.ctx.compSort[c])
 			if c == "alloctop" {
 				g.ctx.assume("(>= " + n + " " + g.stGet(in, c) + ")")
+			}
+			if g.dryOldB != nil && !g.loopWritesOld(li, c) && strings.HasPrefix(g.ctx.compSort[c], "(Array Int ") && g.entry != nil {
+				// the loop writes this component only on objects allocated by this execution:
+				// objects that existed at function entry keep their contents
+				g.ctx.assume("(forall ((r Int)) (! (=> (< r " + g.stGet(g.entry, "alloctop") + ") (= (select " + n + " r) (select " + g.stGet(in, c) + " r))) :pattern ((select " + n + " r))))")
 			}
 			st[c] = n
 		}
@@ -796,6 +810,7 @@ func mapKV(t types.Type) (k, v types.Type) {
 func (g *gen) allocRef(st State) string {
 	top := g.stGet(st, "alloctop")
 	r := g.define("ref", "Int", top)
+	g.freshRefs[r] = true
 	n := g.ctx.fresh("alloctop", "Int")
 	g.ctx.assume("(= " + n + " (+ " + top + " 1))")
 	g.stSet(st, "alloctop", n)
@@ -1498,6 +1513,9 @@ func (g *gen) sliceOp(x *ssa.Slice, st State, reach string) {
 		cond := "(and (<= 0 " + lo + ") (<= " + lo + " " + hi + ") (<= " + hi + " " + mx + ") (<= " + mx + " (s.cap " + base.T + ")))"
 		g.panicCheck("slice", x.Pos(), reach, cond, "slice bounds")
 		g.setVal(x, "(mk-slice (s.ref "+base.T+") (+ (s.off "+base.T+") "+lo+") (- "+hi+" "+lo+") (- "+mx+" "+lo+"))")
+		if g.freshRefs["(s.ref "+base.T+")"] {
+			g.freshRefs["(s.ref "+g.vals[x].T+")"] = true
+		}
 	case *types.Pointer: // *[N]T
 		at := u.Elem().Underlying().(*types.Array)
 		n := fmt.Sprint(at.Len())
@@ -1515,6 +1533,9 @@ func (g *gen) sliceOp(x *ssa.Slice, st State, reach string) {
 		cond := "(and (<= 0 " + lo + ") (<= " + lo + " " + hi + ") (<= " + hi + " " + mx + ") (<= " + mx + " " + n + "))"
 		g.panicCheck("slice", x.Pos(), reach, cond, "array slice bounds")
 		g.setVal(x, "(mk-slice "+base.T+" "+lo+" (- "+hi+" "+lo+") (- "+mx+" "+lo+"))")
+		if g.freshRefs[base.T] {
+			g.freshRefs["(s.ref "+g.vals[x].T+")"] = true
+		}
 	default:
 		g.unsupportedf("slice of %s", x.X.Type())
 	}
@@ -1529,6 +1550,7 @@ func (g *gen) makeSlice(x *ssa.MakeSlice, st State, reach string) {
 	comp := g.ctx.elemComp(es)
 	g.locWrite(st, &Loc{Comp: comp, Idx: []string{r}}, "((as const (Array Int "+es+")) "+g.ctx.zero(et)+")")
 	g.setVal(x, "(mk-slice "+r+" 0 "+ln.T+" "+cp.T+")")
+	g.freshRefs["(s.ref "+g.vals[x].T+")"] = true
 }
 
 func (g *gen) convert(x *ssa.Convert, st State, reach string) {
@@ -1561,6 +1583,7 @@ func (g *gen) convert(x *ssa.Convert, st State, reach string) {
 		comp := g.ctx.elemComp("Int")
 		g.locWrite(st, &Loc{Comp: comp, Idx: []string{r}}, "(bytes_of "+v.T+")")
 		g.setVal(x, "(mk-slice "+r+" 0 (slen "+v.T+") (slen "+v.T+"))")
+		g.freshRefs["(s.ref "+g.vals[x].T+")"] = true
 	case fs == "Slice" && ts == "Str":
 		et := from.(*types.Slice).Elem()
 		if bt, ok := et.Underlying().(*types.Basic); !ok || bt.Kind() != types.Uint8 {
